@@ -405,7 +405,7 @@ private:
         // swap to the end of the aged list and update its time.
         if (e.m_keyed_position->second != last_aged_item)
         {
-            m_dynamic_age_list.splice(last_aged_item, m_dynamic_age_list, e.m_keyed_position->second);
+            m_dynamic_age_list.splice(m_open_list_end, m_dynamic_age_list, e.m_keyed_position->second);
         }
         e.m_dynamic_age = now;
     }
